@@ -449,6 +449,8 @@ class FnEval:
                 o = rv[1]
                 if o[0] in ("cp", "mv") and len(o[1]) == 2 and isinstance(o[1][1], list) and o[1][1][0] == "f":
                     dd = self.b.single_def(o[1][0])
+                    if dd and dd[2] == "A" and dd[3][2][0] == "agg" and o[1][1][1] < len(dd[3][2][2]):
+                        return self.slice_len(dd[3][2][2][o[1][1][1]], at, depth + 1)
                     if dd and dd[2] == "call" and (dd[3][1]["f"].endswith("::split_at") or dd[3][1]["f"].endswith("::split_at_mut")):
                         base = self.slice_len(dd[3][2][0], at, depth + 1)
                         mid = self.op_ival(dd[3][2][1])
@@ -601,12 +603,48 @@ class FnEval:
         return ("?", id(o))
 
     def reads_consistent(self, reads):
-        blocks = set(b for (_l, b) in reads)
-        if len(blocks) > 1 or None in blocks:
-            return len(reads) == 0
+        """All reads of each mutable local see the same value: the reading blocks form a dominance chain and no
+        definition of the local lies on it (between the first and the last read)."""
+        if not reads:
+            return True
+        if any(b is None for (_l, b) in reads):
+            return False
+        bylocal = {}
         for (l, bi) in reads:
+            bylocal.setdefault(l, set()).add(bi)
+        for l, blocks in bylocal.items():
+            bl = list(blocks)
+            # order by dominance
+            bl.sort(key=lambda x: sum(1 for y in bl if self.b.dominates(y, x)))
+            for i in range(len(bl) - 1):
+                if not self.b.dominates(bl[i], bl[i + 1]):
+                    return False
+            first, last = bl[0], bl[-1]
+            between = set()
+            if first != last:
+                # blocks on some path first -> last that does not pass through `first` again
+                fwd = set()
+                st = list(self.b.succ[first])
+                while st:
+                    x = st.pop()
+                    if x in fwd or x == first:
+                        continue
+                    fwd.add(x)
+                    if x != last:
+                        st.extend(self.b.succ[x])
+                bwd = set()
+                st = list(self.b.pred[last])
+                while st:
+                    x = st.pop()
+                    if x in bwd or x == last:
+                        continue
+                    bwd.add(x)
+                    if x != first:
+                        st.extend(self.b.pred[x])
+                between = fwd & bwd
             for d in self.b.defs().get(l, []):
-                if d[0] == bi:
+                D = d[0]
+                if D in blocks or D in between:
                     return False
         return True
 
@@ -687,6 +725,12 @@ class FnEval:
                     return ("k", int(iv[0]))
                 return None
             if rv[0] == "use":
+                o = rv[1]
+                if o[0] in ("cp", "mv") and len(o[1]) == 2 and isinstance(o[1][1], list) and o[1][1][0] == "f":
+                    dd = self.b.single_def(o[1][0])
+                    if dd and dd[2] == "A" and dd[3][2][0] == "agg" and o[1][1][1] < len(dd[3][2][2]):
+                        return self.len_key(dd[3][2][2][o[1][1][1]], reads, depth + 1)
+                    return None
                 return self.len_key(rv[1], reads, depth + 1)
             if rv[0] == "cast":
                 return self.len_key(rv[2], reads, depth + 1)
@@ -825,6 +869,95 @@ class FnEval:
         if any(v_ != 0 for v_ in d.values()):
             return False
         return lu[1] - ll[1] < 0
+
+    def _min_args(self, l):
+        """If local l = min(a, b) (core::cmp::min or usize::min) return the two operands."""
+        d = self.b.single_def(l)
+        if d and d[2] == "call":
+            nm = d[3][1]["f"]
+            if (nm.startswith("core::cmp::min") or nm.endswith("::min")) and len(d[3][2]) == 2:
+                return d[3][2]
+        if d and d[2] == "A" and d[3][2][0] == "use":
+            l2 = operand_local(d[3][2][1])
+            if l2 is not None:
+                return self._min_args(l2)
+        return None
+
+    def ub_linforms(self, key, reads, depth=0):
+        """Linear forms that are upper bounds of the expression: atoms defined as min(a, b) are replaced by
+        either argument (at most 4 alternatives)."""
+        lf = self.linform(key)
+        if lf is None:
+            return []
+        out = [lf]
+        for atom, coef in list(lf[0].items()):
+            if coef <= 0 or atom[0] != "l" or depth > 2:
+                continue
+            ma = self._min_args(atom[1])
+            if ma is None:
+                continue
+            alts = []
+            for a in ma:
+                ak = self.expr_key(a, reads)
+                for base in out:
+                    if atom not in base[0]:
+                        continue
+                    sub = self.linform(ak)
+                    if sub is None:
+                        continue
+                    d = dict(base[0])
+                    c = d.pop(atom)
+                    for k_, v_ in sub[0].items():
+                        d[k_] = d.get(k_, 0) + c * v_
+                    alts.append((d, base[1] + c * sub[1]))
+            out = (out + alts)[:8]
+        return out
+
+    def provably_le_len(self, op, len_key):
+        """op <= len_key structurally (using min() upper bounds)."""
+        if len_key is None:
+            return False
+        reads = []
+        key = self.expr_key(op, reads)
+        ll = self.linform(len_key)
+        if ll is None:
+            return False
+        forms = self.ub_linforms(key, reads)
+        if not self.reads_consistent(reads):
+            return False
+        for lf in forms:
+            d = dict(lf[0])
+            for k_, v_ in ll[0].items():
+                d[k_] = d.get(k_, 0) - v_
+            if all(v_ == 0 for v_ in d.values()) and lf[1] - ll[1] <= 0:
+                return True
+        return False
+
+    def diff_nonneg(self, start_op, end_op):
+        """end - start is a sum of unsigned variables with non-negative coefficients and a non-negative constant."""
+        reads = []
+        ks = self.expr_key(start_op, reads)
+        ke = self.expr_key(end_op, reads)
+        if not self.reads_consistent(reads):
+            return False
+        ls, le = self.linform(ks), self.linform(ke)
+        if ls is None or le is None:
+            return False
+        d = dict(le[0])
+        for k_, v_ in ls[0].items():
+            d[k_] = d.get(k_, 0) - v_
+        if le[1] - ls[1] < 0:
+            return False
+        for k_, v_ in d.items():
+            if v_ < 0:
+                return False
+            if v_ > 0:
+                if k_[0] != "l":
+                    return False
+                td = self.ty(k_[1])
+                if td.get("k") != "uint":
+                    return False
+        return True
 
     def same_length(self, op1, op2):
         """True if both references provably denote slices of the same length (structurally)."""
@@ -1099,6 +1232,21 @@ class FnEval:
         if not succ_blocks:
             return {}
         out = {}
+        # `fn check_len(buf) -> bool { buf.len() == 32 }`: the returned comparison itself
+        if mode == "bool":
+            d0 = self.b.single_def(0) if len(self.b.defs().get(0, [])) == 1 else None
+            if d0 and d0[2] == "A" and d0[3][2][0] == "bin" and d0[3][2][1] in ("Eq", "Ge", "Gt", "Le", "Lt"):
+                rv = d0[3][2]
+                for x, y, flip in ((rv[2], rv[3], False), (rv[3], rv[2], True)):
+                    root = self.len_root(x)
+                    c = self.op_ival(y)
+                    if root is not None and c is not None and c[0] == c[1]:
+                        op = rv[1]
+                        if flip:
+                            op = {"Eq": "Eq", "Lt": "Gt", "Le": "Ge", "Gt": "Lt", "Ge": "Le"}[op]
+                        iv = self._cond_interval(op, int(c[0]), True)
+                        if iv:
+                            return {root: iv}
         for p in params:
             lo, hi = None, None
             for bi in succ_blocks:
